@@ -198,7 +198,12 @@ public:
     //! put or replace/touch item in LRU cache
     void put(const Key& key, const Value& value)
     {
-        // first try to find an existing key
+        // insert key into linked list at the front (most recently used). This
+        // is done before the old entry is erased, because key and value may
+        // refer into that entry, as in put(k, get(k)).
+        list_.push_front(KeyValuePair(key, value));
+
+        // then try to find an existing key
         typename Map::iterator it = map_.find(key);
         if (it != map_.end())
         {
@@ -206,10 +211,8 @@ public:
             map_.erase(it);
         }
 
-        // insert key into linked list at the front (most recently used)
-        list_.push_front(KeyValuePair(key, value));
-        // store iterator to linked list entry in map
-        map_.insert(std::make_pair(key, list_.begin()));
+        // store iterator to linked list entry in map (key may be gone by now)
+        map_.insert(std::make_pair(list_.begin()->first, list_.begin()));
     }
 
     //! touch pair in LRU cache for key. Throws if it is not in the map.
